@@ -358,7 +358,7 @@ int main(int argc, char** argv) {
         specs.swap(s2);
         for (auto sv : {ref::SigVer::BASE, ref::SigVer::WITNESS_V0, ref::SigVer::TAPSCRIPT}) { Spec sp; sp.sv = sv; sp.flags = ref::F_STANDARD & ~ref::F_CLEANSTACK; sp.script = ref::unhex("5152935387"); specs.push_back(sp); sp.script = ref::unhex("51635267536851"); specs.push_back(sp); }
     }
-    int L = int(a.geti("L", tier == "quick" ? 8 : 12));
+    int L = int(a.geti("L", tier == "quick" ? 8 : 13));
     auto toks = exec_tokens(tier != "quick");
     int maxlen = int(a.geti("maxlen", 2));
     Violations V; Stats S; std::vector<std::string> samples;
